@@ -8,5 +8,12 @@ package skiplist
 //@ spec func cmpv(c Ref, a any, b any) Int
 
 //@ iface Comparator.Compare
-//@   ensures r0 == cmpv(this, a, b)
+//@   ensures r0 == cmpv(this, val(a), val(b))
 //@   pure
+
+// The comparators shipped with the package.
+
+//@ func (BytesComparator).Compare
+//@   props C16 C03 C08 C14
+//@   ensures [is-bytes-compare] r0 == bcmp(content(a), content(b))
+//@   modifies nothing
